@@ -258,7 +258,7 @@ WriteByte ==
 \* close(); (sharedtmp: os.replace(scratch, name) -- of whatever the scratch name holds now);
 \* _cache_files += [name].  A failing replace is caught: nothing appended.
 InsertEnd ==
-    /\ stage = "write" /\ (~Mine(wdir) \/ files[WSlot(wdir)].cut = FLen)
+    /\ stage = "write" /\ (Mine(wdir) => files[WSlot(wdir)].cut = FLen)
     /\ IF Bug = "sharedtmp"
        THEN IF WSlot(wdir) \in DOMAIN files
             THEN /\ files' = (<<wdir, Crc>> :> files[WSlot(wdir)]) @@
@@ -378,16 +378,18 @@ Theirs == other.slot \in DOMAIN files /\ files[other.slot].st = "file" /\ files[
 OtherWrite ==
     /\ other # NoOther /\ Theirs /\ files[other.slot].cut < FLen
     /\ files' = [files EXCEPT ![other.slot].cut = @ + 1]
-    /\ UNCHANGED <<ro, rw, known, stage, kind, dev, toc, ret, wdir, fsnap, obsL, obsP, roBase,
+    /\ roBase' = InDir(files', ro)                   \* not a write of OUR cache object
+    /\ UNCHANGED <<ro, rw, known, stage, kind, dev, toc, ret, wdir, fsnap, obsL, obsP,
                    nconn, ncrash, nenv, other, nother, gone>>
 
 OtherEnd ==
-    /\ other # NoOther /\ (~Theirs \/ files[other.slot].cut = FLen)
+    /\ other # NoOther /\ (Theirs => files[other.slot].cut = FLen)
     /\ IF Bug = "sharedtmp" /\ other.slot \in DOMAIN files
        THEN files' = (other.x :> files[other.slot]) @@ [y \in DOMAIN files \ {other.slot} |-> files[y]]
        ELSE UNCHANGED files
     /\ other' = NoOther
-    /\ UNCHANGED <<ro, rw, known, stage, kind, dev, toc, ret, wdir, fsnap, obsL, obsP, roBase,
+    /\ roBase' = InDir(files', ro)
+    /\ UNCHANGED <<ro, rw, known, stage, kind, dev, toc, ret, wdir, fsnap, obsL, obsP,
                    nconn, ncrash, nenv, nother>>
     /\ UNCHANGED <<gone>>
 
